@@ -551,11 +551,13 @@ func AllocRule(w *World, b *Backend, r *Result, rule string, labelsOnly ...bool)
 				key := fmt.Sprintf("alloc:%s:push:%s:%s<%s>", b.Role, so, u.name, u.counter)
 				// the pushing function (or the allocator it calls) must bump the counter
 				bumps := u.alloc
-				for _, blk := range st.Fn.Blocks {
-					for _, ins := range blk.Instrs {
-						if s2, ok := ins.(*ssa.Store); ok {
-							if fa, ok := s2.Addr.(*ssa.FieldAddr); ok && b.X.isConvPtr(fa.X.Type()) && structFieldName(fa.X.Type(), fa.Field) == u.counter {
-								bumps = true
+				for _, hf := range helperClosure(w, st.Fn, 3) {
+					for _, blk := range hf.Blocks {
+						for _, ins := range blk.Instrs {
+							if s2, ok := ins.(*ssa.Store); ok {
+								if fa, ok := s2.Addr.(*ssa.FieldAddr); ok && b.X.isConvPtr(fa.X.Type()) && structFieldName(fa.X.Type(), fa.Field) == u.counter {
+									bumps = true
+								}
 							}
 						}
 					}
